@@ -375,7 +375,7 @@ def _work(job):
         if not r: out['ok'] += 1
         for (clause, k2, msg) in r:
             fail(clause, key if prop != 'C09' else k2, {'bytes': b.hex(), 'A': A}, msg)
-    if prop == 'C19':
+    if prop in ('C19', 'C02'):
         # x87 register forms: the AT&T spelling has historical quirks (operand order, fsub/fsubr and fdiv/fdivr exchanged for some forms),
         # so the reference assembler decides which AT&T lines are transliterations: those GNU as assembles to the same bytes as the Intel line
         x87 = []
@@ -390,6 +390,10 @@ def _work(job):
                 for mm in ([m] + ([sw] if sw else [])):
                     cands.append('%s %s' % (mm, ', '.join(reversed(ops))))
                     cands.append(('%s %s' % (mm, ', '.join(reversed(ops)))).replace('%st(0)', '%st'))
+                    if len(ops) == 2:
+                        # one-operand spellings (the other operand is st): "fsubp %st(1)", "fadd %st(2)"
+                        cands.append('%s %s' % (mm, ops[0])); cands.append('%s %s' % (mm, ops[1]))
+                        if ops[0] == ops[1] == '%st(0)': cands.append('%s %%st' % mm)
                 x87.append((b, A, li, sorted(set(cands))))
         gi = asmgen.gnu_as([x[2] for x in x87], 'intel')
         flat = [(k, t) for k, x in enumerate(x87) for t in x[3]]
@@ -401,6 +405,13 @@ def _work(job):
             c0, _ = safe_asm(li)
             c1, _ = safe_asm(t, True)
             key = '%s %s' % (A['mnem'], opsig(A))
+            if prop == 'C02':
+                # every candidate of an AT&T line that GNU as reads as this instruction must BE this instruction
+                for c in (c1 or []):
+                    B = x86dec.decode(c)
+                    if B is None or B['length'] != len(c) or not asmgen.same_instruction(A, B):
+                        fail('x87-att-meaning', key, {'bytes': b.hex(), 'A': A, 'text': t}, 'candidate %s of %r is %s; GNU as reads the line as %s (%s)' % (c.hex(), t, describe(B) if B else 'no instruction', e.hex(), li))
+                continue
             if c0 is None: continue
             if c1 is None:
                 fail('x87-att-rejected', key, {'bytes': b.hex(), 'A': A, 'text': t}, '%r assembles but its AT&T transliteration %r (GNU as gives %s for both) is rejected' % (li, t, e.hex()))
@@ -427,6 +438,18 @@ def replay(prop, item, clause):
     b = binascii.unhexlify(item['bytes'])
     A = item['A']
     A['ops'] = [tuple(o) for o in A['ops']]
+    if prop == 'C02' and clause.startswith('x87-att'):
+        from specs import x86dec
+        t = item['text']
+        ga = asmgen.gnu_as([t], 'att')[0]
+        c1, _ = safe_asm(t, True)
+        print('AT&T %r: GNU as %s, miasmX %s' % (t, ga and ga.hex(), [x.hex() for x in (c1 or [])]))
+        bad = 0
+        for c in (c1 or []):
+            B = x86dec.decode(c)
+            if B is None or B['length'] != len(c) or not asmgen.same_instruction(A, B):
+                print('candidate %s is %s, not %s' % (c.hex(), describe(B) if B else None, describe(A))); bad = 1
+        return bad
     if prop == 'C02': r = check_C02(b, A)
     elif prop == 'C03':
         try:
